@@ -45,6 +45,17 @@ def install():
     _ORIG["pstart"], _ORIG["pjoin"], _ORIG["palive"] = BaseProcess.start, BaseProcess.join, BaseProcess.is_alive
     _ORIG["pexit"] = BaseProcess.exitcode
     _ORIG["pterm"] = getattr(BaseProcess, "terminate")
+    _ORIG["pclose"] = BaseProcess.close
+
+    def pclose(self):
+        t = getattr(self, "_sim_task", None)
+        if t is None:
+            return _ORIG["pclose"](self)
+        s = _in_sim()
+        if s is not None:
+            s.yield_point(what="process.close")
+        if not t.done:
+            raise ValueError("Cannot close a process while it is still running. You should first call join() or terminate().")
 
     def pstart(self):
         s = _in_sim()
@@ -115,6 +126,7 @@ def install():
 
     BaseProcess.start, BaseProcess.join, BaseProcess.is_alive = pstart, pjoin, palive
     BaseProcess.exitcode = property(pexit)
+    BaseProcess.close = pclose
     threading.Thread.start, threading.Thread.join, threading.Thread.is_alive = tstart, tjoin, talive
 
 
